@@ -278,3 +278,54 @@ def check_unused_iteration(prog, res, fns, rule='X9'):
                       norm_text(node.target), norm_text(node.iter)[:40],
                       norm_text(node.target)))
   return n
+
+
+# ---------------------------------------------------------------------------
+# X10 - a value is not handed out before the function has normalised it
+def check_raw_before_normalised(prog, res, fns, rule='X10'):
+  """`if isinstance(p, tuple) and ...: self.p = [p]  else: self.p = p`
+  says that callers may pass ONE constraint where a list of constraints is
+  meant, and that the rest of the code works on the list form.  Passing the
+  raw parameter `p` as an argument of a call that is executed BEFORE that
+  normalisation hands the un-normalised form to code that iterates it (a
+  single `(0, 2, 1)` is then read as three constraints).  Decided per
+  function: for every parameter with such a wrap, no call before the wrap
+  takes the bare parameter as an argument."""
+  n = 0
+  for fn in fns:
+    params = set(fn.all_params)
+    wraps = {}      # parameter -> position of the normalising statement
+    for st in ast.walk(fn.node):
+      if not isinstance(st, ast.Assign) or len(st.targets) != 1:
+        continue
+      v = st.value
+      if isinstance(v, ast.List) and len(v.elts) == 1 and isinstance(
+          v.elts[0], ast.Name) and v.elts[0].id in params:
+        p_ = v.elts[0].id
+        tgt = dotted(st.targets[0]) or ''
+        if tgt in (p_, 'self.' + p_):
+          pos = (st.lineno, st.col_offset)
+          # position of the enclosing if, when the wrap is conditional
+          wraps[p_] = min(wraps.get(p_, pos), pos)
+    for p_, pos in sorted(wraps.items()):
+      n += 1
+      bad = None
+      for c in ast.walk(fn.node):
+        if not isinstance(c, ast.Call) or (c.lineno, c.col_offset) >= pos:
+          continue
+        fname = dotted(c.func) or ''
+        if fname in ('isinstance', 'len', 'type', 'callable', 'list',
+                     'tuple'):
+          continue
+        args = list(c.args) + [k.value for k in c.keywords]
+        if any(isinstance(a, ast.Name) and a.id == p_ for a in args):
+          bad = c
+          break
+      res.check(bad is None, rule, '%s|%s' % (fn.qualname, p_), fn.loc(
+          bad) if bad is not None else fn.loc(),
+                'the parameter is not handed out before it is normalised',
+                '`%s` is passed to `%s(...)` before the function wraps a '
+                'single constraint into a list: the callee receives the '
+                'un-normalised form' % (p_, norm_text(bad.func)[:40]
+                                        if bad is not None else ''))
+  return n
